@@ -18,10 +18,13 @@ func c07(c *Ctx) {
 	c.R.Explain = "Structural necessary conditions of C07: the call maps are touched only under their mutex and no user function runs under it; in both makeCall functions the deferred completion deletes the key (under the lock) before wg.Done() and is registered before fn runs, so it also runs on panic; the creator registers the call (Add(1), map store) before unlocking and waiters unlock before waiting; fn runs exactly once per makeCall and its results are stored only in the call object; Do/DoEx return the call's own val/err and report fresh exactly for the creator; ResourceManager creates only inside the single-flight closure after a miss and stores only on success. NOT decided: the interval-overlap statement over real interleavings, liveness."
 	c.R.Assume = append(c.R.Assume, "sync.Mutex/WaitGroup semantics", "panics originate in the user function fn")
 	pkg := "core/syncx"
+	// the registries are found by role (the map-typed field), not by spelling
+	fgMap := c.fieldByRole(pkg, "flightGroup", "calls", isMapType)
+	lgMap := c.fieldByRole(pkg, "lockedGroup", "m", isMapType)
 	// R1 lock guards
-	lockGuardFn(c, "C07.R1", pkg+".(*flightGroup).createCall", c.fn("C07.R1", pkg, "(*flightGroup).createCall"), "lock", []string{"calls"}, false, true, nil, true)
-	lockGuardFn(c, "C07.R1", pkg+".(*flightGroup).makeCall", c.fn("C07.R1", pkg, "(*flightGroup).makeCall"), "lock", []string{"calls"}, false, true, nil, true)
-	lockGuardFn(c, "C07.R1", pkg+".(*lockedGroup).Do", c.fn("C07.R1", pkg, "(*lockedGroup).Do"), "mu", []string{"m"}, false, true, []string{"makeCall"}, true)
+	lockGuardFn(c, "C07.R1", pkg+".(*flightGroup).createCall", c.fn("C07.R1", pkg, "(*flightGroup).createCall"), "lock", []string{fgMap}, false, true, nil, true)
+	lockGuardFn(c, "C07.R1", pkg+".(*flightGroup).makeCall", c.fn("C07.R1", pkg, "(*flightGroup).makeCall"), "lock", []string{fgMap}, false, true, nil, true)
+	lockGuardFn(c, "C07.R1", pkg+".(*lockedGroup).Do", c.fn("C07.R1", pkg, "(*lockedGroup).Do"), "mu", []string{lgMap}, false, true, []string{"makeCall"}, true)
 	lockGuardFn(c, "C07.R1", pkg+".(*ResourceManager).Close", c.fn("C07.R1", pkg, "(*ResourceManager).Close"), "lock", []string{"resources"}, false, true, nil, false)
 	lockGuardFn(c, "C07.R1", pkg+".(*ResourceManager).Inject", c.fn("C07.R1", pkg, "(*ResourceManager).Inject"), "lock", []string{"resources"}, false, true, nil, false)
 	if f := c.fn("C07.R1", pkg, "(*ResourceManager).GetResource"); f != nil {
@@ -31,7 +34,7 @@ func c07(c *Ctx) {
 	c.R.Min("C07.R1", 6, "createCall, makeCall, lockedGroup.Do(+makeCall), Close, Inject, GetResource closure")
 
 	// R2 + R4 makeCall (both groups)
-	for _, g := range []struct{ typ, mapField, rule string }{{"flightGroup", "calls", "C07.R2"}, {"lockedGroup", "m", "C07.R2"}} {
+	for _, g := range []struct{ typ, mapField, rule string }{{"flightGroup", fgMap, "C07.R2"}, {"lockedGroup", lgMap, "C07.R2"}} {
 		f := c.fn(g.rule, pkg, "(*"+g.typ+").makeCall")
 		if f == nil {
 			continue
@@ -79,7 +82,7 @@ func c07(c *Ctx) {
 		unlock := lockOn("lock", "Unlock")
 		c.forall("C07.R3", pkg+".(*flightGroup).createCall", "creator: wg.Add(1) and calls[key]=c precede Unlock, returns (c,false) without waiting; waiter: Unlock precedes wg.Wait, returns the found call and true", f, ps, func(p *px.Path) (bool, string) {
 			lk := p.First(px.KindIs(px.EvLookup))
-			if lk == nil || !px.IsFieldLoad(lk.Addr, "calls", nil) || !isParam(lk.Key, f.Params[1]) {
+			if lk == nil || !px.IsFieldLoad(lk.Addr, fgMap, nil) || !isParam(lk.Key, f.Params[1]) {
 				return false, "calls[key] not consulted"
 			}
 			okSym := findExtract(p, lk.Res, 1)
@@ -111,7 +114,7 @@ func c07(c *Ctx) {
 				if a := p.Abs(add.Call.Args[1]); a.K != px.ConstV || !constant.Compare(a.C, token.EQL, constant.MakeInt64(1)) {
 					return false, "Add is not Add(1)"
 				}
-				if !px.IsFieldLoad(mu.Addr, "calls", nil) || !isParam(mu.Key, f.Params[1]) || mu.Val.Strip(false) != p.Results[0].Strip(false) {
+				if !px.IsFieldLoad(mu.Addr, fgMap, nil) || !isParam(mu.Key, f.Params[1]) || mu.Val.Strip(false) != p.Results[0].Strip(false) {
 					return false, "the registered call is not calls[key] = returned call"
 				}
 				if p.Abs(p.Results[1]).K != px.False {
@@ -190,7 +193,7 @@ func c07(c *Ctx) {
 			if fn.Seq < u.Seq {
 				return false, "fn runs before the group lock is released (all keys wait for each other)"
 			}
-			if !px.IsFieldLoad(mu.Addr, "m", nil) || !isParam(mu.Key, f.Params[1]) || mu.Val.Strip(false) != add.Call.Args[0].Strip(false) {
+			if !px.IsFieldLoad(mu.Addr, lgMap, nil) || !isParam(mu.Key, f.Params[1]) || mu.Val.Strip(false) != add.Call.Args[0].Strip(false) {
 				return false, "m[key] is not the wait group that was incremented"
 			}
 			if p.Exit == px.ExitReturn {
